@@ -3,6 +3,7 @@ package main
 import (
 	"fmt"
 	"go/constant"
+	"go/token"
 	"os"
 
 	"golang.org/x/tools/go/ssa"
@@ -39,7 +40,15 @@ func runC17(c *Ctx) {
 			}
 		})
 		if dc == nil {
-			c.Bad("C17.3", fname(fn), "derivation", w.pos(fn.Pos()), "the generator does not derive the password through longTermCredentials")
+			// the derivation may sit behind value-type helpers (username.password(secret))
+			if why, ok := w.c17GeneratorSources(fn, derive, timeNow); ok {
+				c.OK("C17.3", fname(fn), "stamp and derivation", w.pos(fn.Pos()), "username = FormatInt(Now().Add(duration).Unix(), 10)[:user]; password = longTermCredentials(username, secret); both returned (followed through helpers)")
+			} else {
+				if why == "" {
+					why = "the generator does not derive the password through longTermCredentials"
+				}
+				c.Bad("C17.3", fname(fn), "derivation", w.pos(fn.Pos()), why)
+			}
 			continue
 		}
 		// stamp chain
@@ -161,6 +170,15 @@ func runC17(c *Ctx) {
 				}
 			}
 		}
+		if !okKey && kc != nil && kc.Call.StaticCallee() == genKey && w.isFieldLoadOf(kc.Call.Args[0], ra, "Username") && w.isFieldLoadOf(kc.Call.Args[1], ra, "Realm") {
+			// the password may come out of value-type helpers (username.password(secret)):
+			// every source of it is result #0 of longTermCredentials over the presented username
+			if why2, ok := w.c17PasswordSources(kc.Call.Args[2], trueRet, derive, ra, outer.Params[0]); ok {
+				okKey = true
+			} else if why2 != "" {
+				why = why2
+			}
+		}
 		if okKey {
 			c.OK("C17.1", fname(h), "key", w.instrPos(trueRet), "key = GenerateAuthKey(ra.Username, ra.Realm, longTermCredentials(ra.Username, sharedSecret))")
 		} else {
@@ -203,6 +221,11 @@ func runC17(c *Ctx) {
 				if nc, _ := callOf(yc.Call.Args[0]); nc != nil && nc.Call.StaticCallee() == timeNow {
 					okCmp = true
 				}
+			}
+		}
+		if !(okErr && stampOK && okCmp) {
+			if w.c17ExpirySources(trueRet, ra, timeNow) {
+				okErr, stampOK, okCmp = true, true, true
 			}
 		}
 		if okErr && stampOK && okCmp {
@@ -271,4 +294,260 @@ func (w *World) unixSeconds(v ssa.Value, at ssa.Instruction) ssa.Value {
 		return v
 	}
 	return tc.Call.Args[0]
+}
+
+// c17PasswordSources: every source of the password value is result #0 of derive(username,
+// secret) with every source of that username being ra.Username and the secret the
+// constructor's parameter.
+func (w *World) c17PasswordSources(pw ssa.Value, at ssa.Instruction, derive *ssa.Function, ra *ssa.Parameter, secret *ssa.Parameter) (string, bool) {
+	stop := func(h *ssa.Function) bool { return h == derive }
+	leaves, complete := w.sources(pw, at, stop)
+	if !complete || len(leaves) == 0 {
+		return "", false
+	}
+	for i := range leaves {
+		l := &leaves[i]
+		dc, di := callOf(l.val)
+		if dc == nil || dc.Call.StaticCallee() != derive || di != 0 || len(l.sel) > 0 {
+			return "the key's password is not the result of longTermCredentials", false
+		}
+		uls, ok := w.sourcesIn(dc.Call.Args[0], dc, l.frames, l.facts, stop)
+		if !ok || len(uls) == 0 {
+			return "the username the password is derived from could not be followed to its sources", false
+		}
+		for j := range uls {
+			u := &uls[j]
+			if len(u.sel) > 0 || u.mem != nil || !w.isFieldLoadOf(u.outer(w, u.val), ra, "Username") {
+				return "the password is derived from " + w.desc(u.val) + " (" + u.where + "), not from the full presented username: credentials issued for one username authenticate another", false
+			}
+		}
+		sv := l.outer(w, dc.Call.Args[1])
+		if p, ok := w.valueRootParam(sv); !ok || p != secret {
+			return "the secret used is not the constructor's sharedSecret", false
+		}
+	}
+	return "", true
+}
+
+// c17ExpirySources: the accepting return is dominated by a comparison — possibly made inside
+// value-type helpers — equivalent to ¬(stamp < time.Now().Unix()), stamp being result #0 of
+// a successful decimal parse of ra.Username or of the first ":"-field of it.
+func (w *World) c17ExpirySources(at *ssa.Return, ra *ssa.Parameter, timeNow *ssa.Function) bool {
+	type cand struct {
+		x, y   ssa.Value
+		frames []srcFrame
+		facts  []Fact
+	}
+	var cands []cand
+	for _, f := range w.factsAt(at) {
+		switch {
+		case f.Op == "<" && !f.Truth:
+			cands = append(cands, cand{f.X, f.Y, nil, w.factsAt(at)})
+		case f.Op == "true":
+			c0, _ := callOf(f.X)
+			if c0 == nil || c0.Call.StaticCallee() == nil || !w.IsMod[c0.Call.StaticCallee()] {
+				continue
+			}
+			leaves, complete := w.sources(f.X, at, nil)
+			if !complete {
+				continue
+			}
+			for i := range leaves {
+				l := &leaves[i]
+				for _, nf := range normCond(l.val, f.Truth) {
+					if nf.Op == "<" && !nf.Truth {
+						cands = append(cands, cand{nf.X, nf.Y, l.frames, l.facts})
+					}
+				}
+			}
+		}
+	}
+	for _, cd := range cands {
+		// right-hand side: time.Now().Unix()
+		okNow := false
+		if ys, ok := w.sourcesIn(cd.y, nil, cd.frames, cd.facts, nil); ok && len(ys) == 1 {
+			if uc, _ := callOf(ys[0].val); uc != nil && uc.Call.StaticCallee() != nil && uc.Call.StaticCallee().String() == "(time.Time).Unix" {
+				if ns, ok := w.sourcesIn(uc.Call.Args[0], nil, ys[0].frames, ys[0].facts, nil); ok && len(ns) == 1 {
+					if nc, _ := callOf(ns[0].val); nc != nil && nc.Call.StaticCallee() == timeNow {
+						okNow = true
+					}
+				}
+			}
+		}
+		if !okNow {
+			continue
+		}
+		xs, ok := w.sourcesIn(stripIntConv(cd.x), nil, cd.frames, cd.facts, nil)
+		if !ok || len(xs) != 1 {
+			continue
+		}
+		x := &xs[0]
+		pc, pi := callOf(stripIntConv(x.val))
+		if pc == nil || pi != 0 || !isDecimalParse(pc) {
+			continue
+		}
+		okErr := false
+		for _, f := range append(append([]Fact{}, x.facts...), w.factsAt(at)...) {
+			if v, isNil, isNF := nilFact(f); isNF && isNil {
+				if c2, i2 := callOf(v); c2 == pc && i2 == 1 {
+					okErr = true
+				}
+			}
+		}
+		if !okErr {
+			continue
+		}
+		// the parsed string: ra.Username, or element 0 of its split at ":"
+		fromUser := func(v ssa.Value, frames []srcFrame, facts []Fact) bool {
+			ls, ok := w.sourcesIn(v, nil, frames, facts, nil)
+			if !ok || len(ls) == 0 {
+				return false
+			}
+			for i := range ls {
+				if len(ls[i].sel) > 0 || ls[i].mem != nil || !w.isFieldLoadOf(ls[i].outer(w, ls[i].val), ra, "Username") {
+					return false
+				}
+			}
+			return true
+		}
+		arg := w.resolveLoad(pc.Call.Args[0])
+		if fromUser(arg, x.frames, x.facts) {
+			return true
+		}
+		if u, ok := arg.(*ssa.UnOp); ok {
+			if ia, ok := u.X.(*ssa.IndexAddr); ok {
+				if k, isK := constInt(ia.Index); isK && k == 0 {
+					if sc, _ := callOf(ia.X); sc != nil && isColonSplit(sc) && fromUser(sc.Call.Args[0], x.frames, x.facts) {
+						return true
+					}
+				}
+			}
+		}
+	}
+	return false
+}
+
+// c17GeneratorSources: the generator rule on value sources: every source of the returned
+// password is result #0 of derive(username, secret) with secret the generator's first
+// parameter; every source of that username is FormatInt(time.Now().Add(duration).Unix(), 10)
+// or that string + ":" + the user parameter; the returned username has the same sources.
+func (w *World) c17GeneratorSources(fn, derive, timeNow *ssa.Function) (string, bool) {
+	stop := func(h *ssa.Function) bool { return h == derive }
+	durParam := fn.Params[len(fn.Params)-1]
+	single := func(v ssa.Value, frames []srcFrame, facts []Fact) *srcLeaf {
+		ls, ok := w.sourcesIn(v, nil, frames, facts, stop)
+		if !ok || len(ls) != 1 || len(ls[0].sel) > 0 || ls[0].mem != nil {
+			return nil
+		}
+		return &ls[0]
+	}
+	isStamp := func(v ssa.Value, frames []srcFrame, facts []Fact) bool {
+		l := single(v, frames, facts)
+		if l == nil {
+			return false
+		}
+		fc, _ := callOf(l.val)
+		if fc == nil || fc.Call.StaticCallee() == nil || fc.Call.StaticCallee().String() != "strconv.FormatInt" {
+			return false
+		}
+		if k, isK := constInt(fc.Call.Args[1]); !isK || k != 10 {
+			return false
+		}
+		ul := single(fc.Call.Args[0], l.frames, l.facts)
+		if ul == nil {
+			return false
+		}
+		uc, _ := callOf(ul.val)
+		if uc == nil || uc.Call.StaticCallee() == nil || uc.Call.StaticCallee().String() != "(time.Time).Unix" {
+			return false
+		}
+		al := single(uc.Call.Args[0], ul.frames, ul.facts)
+		if al == nil {
+			return false
+		}
+		ac, _ := callOf(al.val)
+		if ac == nil || ac.Call.StaticCallee() == nil || ac.Call.StaticCallee().String() != "(time.Time).Add" {
+			return false
+		}
+		nl := single(ac.Call.Args[0], al.frames, al.facts)
+		dl := single(ac.Call.Args[1], al.frames, al.facts)
+		if nl == nil || dl == nil {
+			return false
+		}
+		nc, _ := callOf(nl.val)
+		return nc != nil && nc.Call.StaticCallee() == timeNow && (dl.val == ssa.Value(durParam) || w.sameKey(dl.outer(w, dl.val), durParam))
+	}
+	userOK := func(l *srcLeaf) bool {
+		if len(l.sel) > 0 || l.mem != nil {
+			return false
+		}
+		if fc, _ := callOf(l.val); fc != nil {
+			return isStamp(l.val, l.frames, l.facts)
+		}
+		bo, ok := l.val.(*ssa.BinOp)
+		if !ok || bo.Op != token.ADD {
+			return false
+		}
+		b2, ok := bo.X.(*ssa.BinOp)
+		if !ok || b2.Op != token.ADD {
+			return false
+		}
+		if k, isK := b2.Y.(*ssa.Const); !isK || k.Value == nil || k.Value.ExactString() != `":"` {
+			return false
+		}
+		if !isStamp(b2.X, l.frames, l.facts) {
+			return false
+		}
+		ul := single(bo.Y, l.frames, l.facts)
+		if ul == nil {
+			return false
+		}
+		_, isP := ul.val.(*ssa.Parameter)
+		return isP && ul.val.Parent() == fn && len(ul.frames) == 0
+	}
+	nDerive := 0
+	var userKeys []string
+	for _, r := range returnsOf(fn) {
+		pls, ok := w.sources(r.Results[1], r, stop)
+		if !ok || len(pls) == 0 {
+			return "the returned password could not be followed to its sources", false
+		}
+		for i := range pls {
+			l := &pls[i]
+			dc, di := callOf(l.val)
+			if dc == nil || dc.Call.StaticCallee() != derive || di != 0 {
+				return "the generator does not derive the password through longTermCredentials", false
+			}
+			nDerive++
+			if sv := l.outer(w, dc.Call.Args[1]); !(sv == ssa.Value(fn.Params[0]) || w.sameKey(sv, fn.Params[0])) {
+				return "the password is not derived with the generator's shared secret", false
+			}
+			uls, ok := w.sourcesIn(dc.Call.Args[0], dc, l.frames, l.facts, stop)
+			if !ok || len(uls) == 0 {
+				return "the username the password is derived from could not be followed to its sources", false
+			}
+			for j := range uls {
+				if !userOK(&uls[j]) {
+					return "the username the password is derived from (" + w.desc(uls[j].val) + ") is not the decimal stamp now+duration (optionally followed by \":\" and the user)", false
+				}
+				userKeys = append(userKeys, w.key(uls[j].val))
+			}
+		}
+		rls, ok := w.sources(r.Results[0], r, stop)
+		if !ok || len(rls) == 0 {
+			return "the returned username could not be followed to its sources", false
+		}
+		for j := range rls {
+			found := false
+			for _, k := range userKeys {
+				if k == w.key(rls[j].val) {
+					found = true
+				}
+			}
+			if !found || !userOK(&rls[j]) {
+				return "the username returned (" + w.desc(rls[j].val) + ") is not the one the password was derived from", false
+			}
+		}
+	}
+	return "", nDerive > 0
 }
